@@ -1,9 +1,12 @@
 package main
 
 import (
+	"encoding/base64"
+	"encoding/json"
 	"fmt"
 	"math/big"
 	"strconv"
+	"strings"
 
 	sdk "github.com/cosmos/cosmos-sdk/types"
 	banktypes "github.com/cosmos/cosmos-sdk/x/bank/types"
@@ -22,6 +25,7 @@ import (
 	tmtypes "github.com/teleport-network/teleport/x/xibc/clients/light-clients/tendermint/types"
 	tsstypes "github.com/teleport-network/teleport/x/xibc/clients/tss-client/types"
 	clienttypes "github.com/teleport-network/teleport/x/xibc/core/client/types"
+	"github.com/teleport-network/teleport/x/xibc/core/host"
 	packettypes "github.com/teleport-network/teleport/x/xibc/core/packet/types"
 	"github.com/teleport-network/teleport/x/xibc/exported"
 
@@ -162,20 +166,52 @@ func (w *World) do1(op Op) OpObs {
 		}
 		pk := w.pendAB[0]
 		w.pendAB = w.pendAB[1:]
-		if err := w.path.EndpointB.RecvPacket(pk); err != nil {
+		if err := w.path.EndpointB.UpdateClient(); err != nil {
+			return errClass(err)
+		}
+		key := host.PacketCommitmentKey(pk.GetSrcChain(), pk.GetDstChain(), pk.GetSequence())
+		proof, proofHeight := w.A.QueryProof(key)
+		bz, err := pk.ABIPack()
+		if err != nil {
+			return errClass(err)
+		}
+		res, err := w.deliver(w.B, packettypes.NewMsgRecvPacket(bz, proof, proofHeight, w.B.SenderAcc))
+		if err != nil {
 			return errClass(err)
 		}
 		if op.B { // leave the commitment on A (no acknowledgement relayed)
 			return OpObs{}
 		}
-		ackBz, err := packettypes.NewAcknowledgement(1, []byte{}, "receive packet callback failed", w.A.SenderAcc.String(), pk.FeeOption).ABIPack()
-		if err != nil {
+		// the acknowledgement B wrote, from its typed event
+		var ack []byte
+		for _, ev := range res.Events {
+			if ev.Type == "xibc.core.packet.v1.EventWriteAck" {
+				for _, at := range ev.Attributes {
+					if string(at.Key) == "ack" {
+						var b64 string
+						if json.Unmarshal(at.Value, &b64) == nil {
+							ack, _ = base64.StdEncoding.DecodeString(b64)
+						}
+					}
+				}
+			}
+		}
+		if ack == nil {
+			return OpObs{Class: 1, Note: "no acknowledgement event on B"}
+		}
+		if err := w.path.EndpointA.UpdateClient(); err != nil {
 			return errClass(err)
 		}
-		// the acknowledgement bytes B actually wrote are not retrievable from the hash: try the two the handler can produce
-		if err := w.path.EndpointA.AcknowledgePacket(pk, ackBz); err != nil {
+		akey := host.PacketAcknowledgementKey(pk.GetSrcChain(), pk.GetDstChain(), pk.GetSequence())
+		aproof, aheight := w.B.QueryProof(akey)
+		// keeper level (proof verification, commitment deletion): the msg server would go on to call the packet
+		// contract's OnAcknowledgePacket, which reverts for a packet the contract did not send itself
+		cctx, write := w.ctx().CacheContext()
+		if err := a.XIBCKeeper.PacketKeeper.AcknowledgePacket(cctx, packettypes.NewMsgAcknowledgement(bz, ack, aproof, aheight, w.A.SenderAcc)); err != nil {
 			return errClass(err)
 		}
+		write()
+		w.commit(w.A)
 		return OpObs{}
 	case "recv": // B -> A: sent through B's packet keeper, received on A with MsgRecvPacket (receipt + acknowledgement on A)
 		w.needTM()
@@ -185,7 +221,13 @@ func (w *World) do1(op Op) OpObs {
 			if err := w.path.EndpointB.SendPacket(pk); err != nil {
 				return errClass(err)
 			}
-			if err := w.path.EndpointA.RecvPacket(*pk); err != nil {
+			key := host.PacketCommitmentKey(pk.GetSrcChain(), pk.GetDstChain(), pk.GetSequence())
+			proof, proofHeight := w.B.QueryProof(key)
+			bz, err := pk.ABIPack()
+			if err != nil {
+				return errClass(err)
+			}
+			if _, err := w.deliver(w.A, packettypes.NewMsgRecvPacket(bz, proof, proofHeight, w.A.SenderAcc)); err != nil {
 				return errClass(err)
 			}
 		}
@@ -273,6 +315,9 @@ func (w *World) do1(op Op) OpObs {
 		}
 		rev, h := u64(op.Rev), u64(op.H)
 		height := clienttypes.NewHeight(rev, h)
+		if height.IsZero() && cs.ClientType() == exported.Tendermint {
+			return OpObs{Class: 4, Note: "a Tendermint chain has no height zero"}
+		}
 		ck.SetClientConsensusState(w.ctx(), op.Name, height, w.consOf(cs.ClientType(), rev, h, byte(op.N)))
 		store := ck.ClientStore(w.ctx(), op.Name)
 		switch cs.ClientType() {
@@ -314,6 +359,10 @@ func (w *World) do1(op Op) OpObs {
 		w.mintSupply(base)
 		md := banktypes.Metadata{Description: "d " + base, Base: base, Display: "d" + base, Name: "n" + base, Symbol: "S",
 			DenomUnits: []*banktypes.DenomUnit{{Denom: base, Exponent: 0}, {Denom: "d" + base, Exponent: 18}}}
+		if strings.HasPrefix(base, "ibc/") {
+			md = banktypes.Metadata{Description: "d", Base: base, Display: "dibc" + base[60:], Name: "channel-0/" + base, Symbol: "S",
+				DenomUnits: []*banktypes.DenomUnit{{Denom: base, Exponent: 0}, {Denom: "dibc" + base[60:], Exponent: 18}}}
+		}
 		var content govtypes.Content
 		if op.K == "agg_regcoin" {
 			content = aggtypes.NewRegisterCoinProposal("t", "d", md)
@@ -355,7 +404,11 @@ func (w *World) do1(op Op) OpObs {
 			return OpObs{Class: 4}
 		}
 		i, _ := strconv.Atoi(op.Rev)
-		c, note := w.gov(aggtypes.NewUpdateTokenPairERC20Proposal("t", "d", w.pairAddrs[op.N%len(w.pairAddrs)], w.deployed[i%len(w.deployed)].Hex()))
+		old := w.pairAddrs[op.N%len(w.pairAddrs)]
+		if op.B { // the pair of deployed contract N
+			old = w.deployed[op.N%len(w.deployed)].Hex()
+		}
+		c, note := w.gov(aggtypes.NewUpdateTokenPairERC20Proposal("t", "d", old, w.deployed[i%len(w.deployed)].Hex()))
 		if c == 0 {
 			w.refreshPairs()
 		}
